@@ -196,6 +196,12 @@ type c28Child struct {
 	done   chan struct{}
 }
 
+type c28StartDeath struct{ state, stderr string }
+
+func (e *c28StartDeath) Error() string {
+	return "child died while starting (" + e.state + "):\n" + c28Last(e.stderr, 4000)
+}
+
 type c28Tail struct {
 	mu  sync.Mutex
 	buf []byte
@@ -254,8 +260,12 @@ func (h *c28Harness) start() error {
 	// the child announces itself once its routers are up
 	line, err := h.readLine(c28VecDeadline)
 	if err != nil {
-		h.kill()
-		return fmt.Errorf("child did not start: %v\n%s", err, tail.String())
+		if errors.Is(err, context.DeadlineExceeded) {
+			h.kill()
+			return fmt.Errorf("child did not start: %v\n%s", err, tail.String())
+		}
+		state, errText := h.reap()
+		return &c28StartDeath{state: state, stderr: errText}
 	}
 	var hello c28Result
 	if json.Unmarshal(line, &hello) != nil || hello.Outcome != "ready" {
@@ -330,6 +340,14 @@ func (h *c28Harness) Apply(a map[string]any) error {
 	}
 	if h.child == nil {
 		if err := h.start(); err != nil {
+			// A child that dies of a panic while it serves the self-check's valid requests has shown
+			// what the property forbids; anything else is a harness problem.
+			var sd *c28StartDeath
+			if errors.As(err, &sd) && (strings.Contains(sd.stderr, "panic: ") || strings.Contains(sd.stderr, "fatal error: ")) {
+				h.res = &c28Result{Outcome: "crash", Why: c28WhyDead(sd.stderr, sd.state),
+					Detail: "the process terminated while serving the valid requests of the start-up self-check (" + sd.state + "):\n" + c28Excerpt(sd.stderr)}
+				return nil
+			}
 			return err
 		}
 	}
@@ -1006,6 +1024,9 @@ var c28OddHeaders = [][][2]string{
 	{{"X-Honeycomb-Event-Time", "0001-01-01T00:00:00Z"}, {"X-Hny-Team", c28Key}, {"X-Honeycomb-Team", ""}},
 	{{"X-Honeycomb-Event-Time", "9999-12-31T23:59:59.999999999+14:00"}, {"X-Honeycomb-Team", c28Key}, {"X-Honeycomb-Team", "c28second"}},
 	{{"X-Honeycomb-Event-Time", ".5"}, {"User-Agent", ""}, {"Content-Type", "application/json"}},
+	{{"X-Honeycomb-Team", "k"}, {"X-Honeycomb-Event-Time", "1535589382641000"}},
+	{{"X-Honeycomb-Team", strings.Repeat("0123456789abcdef", 2)}, {"X-Honeycomb-Dataset", "c28 classic/ds %2F"}},
+	{{"X-Honeycomb-Team", "hcaik_" + strings.Repeat("0123456789abcdefghijklmnopqrstuvwxyz", 2)[:58]}, {"X-Honeycomb-Samplerate", "7"}},
 }
 
 func c28Native(ep string) string {
@@ -1253,7 +1274,9 @@ func (e *c28Env) evalQuery(shape, hdr string) {
 		for _, p := range paths {
 			for _, m := range []string{"GET", "POST", "HEAD"} {
 				e.send(c28Send{target: "incoming", method: m, path: p, headers: tok, label: "query " + m})
-				e.send(c28Send{target: "peer", method: m, path: p, headers: tok, label: "query " + m})
+				if m == "GET" {
+					e.send(c28Send{target: "peer", method: m, path: p, headers: tok, label: "query " + m})
+				}
 				if e.failed() {
 					e.noteInput(m + " " + c28First(p, 200))
 					return
@@ -1266,7 +1289,8 @@ func (e *c28Env) evalQuery(shape, hdr string) {
 func (e *c28Env) evalProxy(ctype, comp, shape, hdr string) {
 	bodies := map[string][][]byte{"valid": {[]byte(`{"message":"c28 marker"}`)}, "empty": {nil}, "hugelen": {bytes.Repeat([]byte("c28 "), 1<<18)},
 		"badutf8": {[]byte("\xff\xfe\xc3\x28")}}[shape]
-	paths := []string{"/1/markers/" + c28Dataset, "/", "/1/auth", "/2/anything?x=%ff&y=c28", "/1/events", "/1/batch", "/v1/metrics", "/v1/traces/extra", "/alive/x", "/version", "/alive", "/ready"}
+	paths := []string{"/1/markers/" + c28Dataset, "/", "/1/auth", "/2/anything?x=%ff&y=c28", "/1/events", "/1/batch", "/v1/metrics", "/v1/traces/extra", "/alive/x", "/version", "/alive", "/ready",
+		"/panic"} // the router's own "intentional panic" route: its panicCatcher has to turn that into an answer
 	if shape == "badutf8" {
 		paths = []string{"/1/markers/%ff%fe", "/%00", "/1/markers/c28?%ff=%fe", "//1//markers", "/1/markers/../../x", "/%2e%2e/%2e%2e"}
 	}
@@ -1714,11 +1738,8 @@ func (e *c28Env) selfCheck() error {
 			}
 			e.mu.Lock()
 			after := e.spans
-			f := e.fail
+			e.fail = nil // a crash on a valid request is a verdict, not a dead driver: the class "valid" will meet it again
 			e.mu.Unlock()
-			if f != nil {
-				return fmt.Errorf("self-check %s/%s: %s %s\n%s", ep, enc, f.outcome, f.why, f.detail)
-			}
 			if after == before {
 				return fmt.Errorf("self-check %s/%s: the valid request was accepted but no span reached the collector", ep, enc)
 			}
@@ -1760,6 +1781,35 @@ func (e *c28Env) eval(v map[string]any) c28Result {
 	return r
 }
 
+const (
+	c28HardLimit     = uint64(12) << 30
+	c28ClassHeadroom = uint64(3) << 30   // address space a class may take on top of what the process holds
+	c28BombHeadroom  = uint64(256) << 20 // ... and a class whose members are 5 to 30 bytes long (lenbomb)
+)
+
+// c28VSZ is the size of the address space of this process (what RLIMIT_AS limits).
+func c28VSZ() uint64 {
+	raw, err := os.ReadFile("/proc/self/statm")
+	if err != nil {
+		return 0
+	}
+	pages, _ := strconv.ParseUint(strings.Fields(string(raw))[0], 10, 64)
+	return pages * uint64(os.Getpagesize())
+}
+
+// c28Headroom sets the soft address-space limit for the vector that is about to run.
+func c28Headroom(v map[string]any) {
+	room := c28ClassHeadroom
+	if verifkit.Str(v, "shape") == "lenbomb" {
+		room = c28BombHeadroom
+	}
+	lim := c28VSZ() + room
+	if lim > c28HardLimit {
+		lim = c28HardLimit
+	}
+	syscall.Setrlimit(syscall.RLIMIT_AS, &syscall.Rlimit{Cur: lim, Max: c28HardLimit})
+}
+
 func c28ChildMain() {
 	in := bufio.NewReaderSize(os.NewFile(3, "c28-requests"), 1<<20)
 	out := os.NewFile(4, "c28-results")
@@ -1769,9 +1819,9 @@ func c28ChildMain() {
 	}
 	// A bounded address space stands for the memory limit every deployment has: an input that makes
 	// Refinery allocate without bound ends in the runtime's "out of memory" here instead of taking
-	// the machine down.
-	lim := uint64(3) << 30
-	syscall.Setrlimit(syscall.RLIMIT_AS, &syscall.Rlimit{Cur: lim, Max: lim})
+	// the machine down. The bound is set per vector (c28Headroom), relative to what the process
+	// already holds, so that one vector is never judged by what earlier ones left behind.
+	syscall.Setrlimit(syscall.RLIMIT_AS, &syscall.Rlimit{Cur: c28HardLimit, Max: c28HardLimit})
 	env, err := c28NewEnv()
 	if err == nil {
 		err = env.selfCheck()
@@ -1796,12 +1846,16 @@ func c28ChildMain() {
 			reply(c28Result{Err: "bad request line: " + err.Error()})
 			continue
 		}
+		c28Headroom(req.V)
 		r := env.eval(req.V)
 		r.ID = req.ID
-		// the address-space limit must judge a vector, not what earlier vectors left behind
+		// a child that has grown a lot is replaced rather than carried along
 		var ms runtime.MemStats
 		runtime.ReadMemStats(&ms)
-		r.Recycle = ms.Sys > 768<<20
+		if ms.Sys > 512<<20 {
+			debug.FreeOSMemory()
+		}
+		r.Recycle = c28VSZ()+c28ClassHeadroom > c28HardLimit-(1<<30) || ms.Sys > 1<<30
 		reply(r)
 		if r.Outcome == "hang" || r.Recycle {
 			os.RemoveAll(env.dir)
